@@ -184,6 +184,7 @@ def tie_assemble(rng, deep):
         pts = sorted([rng.uniform(0.0, rmax) for _ in range(6)] + [rmax, r2 * (1 - 1e-4) if rmax > r2 else rmax * 0.5])
         cases.append((p, t, pts))
     lines, exps, meta = [], [], []
+    rmax_of = {(id(p), t): max(pts) for p, t, pts in cases}
     for p, t, pts in cases:
         l, e, s = assemble_lines(p, t, pts)
         lines += l
@@ -204,7 +205,15 @@ def tie_assemble(rng, deep):
                 if not _close(a, b, 2e-11, 1e-300):
                     bad = '%s: code %r model %r' % (n, a, b)
                     break
-        if bad:
+        if bad and tag == 'ok' and len(vals) == len(e) and vals[0] != e[0] and _close(e[0], vals[0], 1e-14) \
+                and min(abs(x - e[0]), abs(rmax_of[id(p), t] - e[0])) <= 1e-13 * abs(e[0]):
+            # robust-semi: the request puts the point / the last grid node EXACTLY on the shock (probe of `<=`), and on
+            # this tree the code's r2 and the model's r2 differ in the last bits (a reordering of floating-point
+            # operations in the source: harmless).  Which side of `rwant <= r2` such a node falls on is then decided by
+            # rounding, not by the assembly logic: not a mismatch.  (When the two r2 are bit-equal — the pinned tree —
+            # the comparison stays strict.)
+            st['hist']['shock-node-within-rounding'] = st['hist'].get('shock-node-within-rounding', 0) + 1
+        elif bad:
             st['mismatches'].append(dict(model='SedovAssemble', params=p, t=t, point=x, why=bad))
         elif all(math.isfinite(v) for v in e):
             st['distinct_nontrivial'] += 1
@@ -565,6 +574,10 @@ def _check_energy(c):
     except Exception:
         return None
     E = c['params']['eblast']
+    rec = c.get('recorded', {}).get('energy')
+    if rec is not None and not abs(en / E / rec - 1.0) <= 0.03:
+        return dict(site=_site('energy', s) + ':changed',
+                    detail='energy ratio %r at the recorded witness, %r on the tree the finding was recorded on' % (en / E, rec))
     if not abs(en / E - 1.0) <= ETOL:
         return dict(site=_site('energy', s),
                     detail='energy behind the shock %r, eblast %r, ratio %r' % (en, E, en / E))
@@ -576,6 +589,10 @@ def _check_mass(c):
         s, en, ma, m0 = _integrals(c)
     except Exception:
         return None
+    rec = c.get('recorded', {}).get('mass')
+    if rec is not None and not abs(ma / m0 / rec - 1.0) <= 0.03:
+        return dict(site=_site('mass', s) + ':changed',
+                    detail='mass ratio %r at the recorded witness, %r on the tree the finding was recorded on' % (ma / m0, rec))
     if not abs(ma / m0 - 1.0) <= MTOL:
         return dict(site=_site('mass', s),
                     detail='mass behind the shock %r, initial mass inside r2 %r, ratio %r' % (ma, m0, ma / m0))
@@ -597,9 +614,12 @@ mass = O.make(_gen_regular, _check_mass, 'sedov.mass')
 # uniform grid + linear interpolation of the returned solution does not resolve it and the
 # integrals of the RETURNED solution are off by O(1).  Fixed witnesses, evaluated on every run.
 SINGULAR_WITNESSES = [
-    dict(params=dict(geometry=1, gamma=2.4, rho0=1.0, omega=0.85, eblast=1.0), t=1.0),    # mass ratio 2.65
-    dict(params=dict(geometry=2, gamma=1.3, rho0=1.0, omega=1.94, eblast=1.0), t=1.0),    # energy 0.850, mass 0.764
+    dict(params=dict(geometry=1, gamma=2.4, rho0=1.0, omega=0.85, eblast=1.0), t=1.0, recorded=dict(energy=1.0000, mass=2.6539)),
+    dict(params=dict(geometry=2, gamma=1.3, rho0=1.0, omega=1.94, eblast=1.0), t=1.0, recorded=dict(energy=0.8503, mass=0.7639)),
 ]
+# `recorded`: the ratios the unchanged tree returns at the witness.  A known finding is a specific defect, not a licence
+# for the regime: a ratio that moved by more than 3 % gets another site (seeded C11-6 turned 0.85 into 17.4 at the
+# second witness and was first reported as the known finding).
 
 
 def _gen_w(i):
@@ -675,7 +695,12 @@ ambient = O.make(_gen_ambient, _check_ambient, 'sedov.ambient')
 
 
 def _gen_sim(rng):
-    return dict(params=sample(rng), t1=rng.uniform(0.2, 1.0), t2=rng.uniform(1.0, 3.0),
+    # every run starts with one case of each solution type (a run may fit only three cases in its budget; the
+    # singular type is a separate code path: seeded C10-6 broke only sedov_funcs_singular and was missed)
+    k = getattr(_gen_sim, 'count', 0)
+    _gen_sim.count = k + 1
+    kind = ['singular', 'vacuum', 'standard', None, None][k % 5]
+    return dict(params=sample(rng, kind), t1=rng.uniform(0.2, 1.0), t2=rng.uniform(1.0, 3.0),
                 lam=sorted(rng.uniform(0.05, 1.0) for _ in range(6)), top=rng.uniform(1.0, 1.5))
 
 
